@@ -4,6 +4,7 @@ package c14
 import (
 	"fmt"
 	"math"
+	"strings"
 
 	"github.com/DemoHn/Zn/pkg/exec"
 	r "github.com/DemoHn/Zn/pkg/runtime"
@@ -332,6 +333,52 @@ func H_T2_Free() {
 		}
 	}
 	checkFormat(t, "T2")
+}
+
+var precisions = []string{"0", "1", "6", "17", "100", "1000", "999999", "1000000", "1000001", "9999999999", "99999999999999999999", "00000000000000000002"}
+
+// H_T2_Precision: {#.N}, {#.NE}, {#.N%}, {#+.N} with precisions from one digit
+// to twenty digits, on a symbolic sign and five magnitudes: the result is the
+// documented rendering (N decimals) or an error - never text produced by a
+// failed conversion inside the host's formatter.
+func H_T2_Precision() {
+	prec := precisions[zv.Choose(len(precisions))]
+	suffix := []string{"", "E", "%"}[zv.Choose(3)]
+	plus := []string{"", "+"}[zv.Choose(2)]
+	x := []float64{1.5, 0, 123456.789, 1e-7, 2.5e20}[zv.Choose(5)]
+	if zv.Bool("neg") {
+		x = -x
+	}
+	tmpl := "值{#" + plus + "." + prec + suffix + "}"
+	res, err, p := run("输入T、X\n输出 T % 【X】", r.ElementMap{"T": value.NewString(tmpl), "X": value.NewNumber(x)})
+	zv.Assert(p == nil, "precision: no panic")
+	if err != nil {
+		zv.Reach("rejected")
+		return
+	}
+	zv.Reach("formatted")
+	rs, ok := res.(*value.String)
+	zv.Assert(ok, "precision: result is a text")
+	text := rs.GetValue()
+	zv.Assert(!strings.Contains(text, "%!"), "a precision the formatter cannot honour is reported as an error, not rendered as the host formatter's failure text: "+tmpl)
+	zv.Assert(strings.HasPrefix(text, "值"), "precision: literal text copied verbatim")
+	if len(prec) <= 4 {
+		n := 0
+		for _, c := range prec {
+			n = n*10 + int(c-'0')
+		}
+		verb := "%" + plus + fmt.Sprintf(".%d", n)
+		want := ""
+		switch suffix {
+		case "E":
+			want = fmt.Sprintf(verb+"E", x)
+		case "%":
+			want = fmt.Sprintf(verb+"f", x*100) + "%"
+		default:
+			want = fmt.Sprintf(verb+"f", x)
+		}
+		zv.Assert(text == "值"+want, "{#.N} renders N decimals: "+tmpl)
+	}
 }
 
 // H_T2_Structured: text{#‹directive of up to 3 symbolic characters›}text{} .
